@@ -634,11 +634,13 @@ pub fn run_check<E: Check>(opts: Opts) -> i32 {
     };
     let floor = ((floor as f64) * opts.scale.min(1.0)) as u64;
     if (nontrivial.len() as u64) < floor.max(2) {
+        let gated: u64 = labels.iter().filter(|(k, _)| k.starts_with("gated:")).map(|(_, v)| *v).sum();
         println!(
-            "INCONCLUSIVE property={} only {} distinct non-trivial cases (floor {}): generator starved",
+            "INCONCLUSIVE property={} only {} distinct non-trivial cases (floor {}): {}",
             id,
             nontrivial.len(),
-            floor.max(2)
+            floor.max(2),
+            if gated > 0 { format!("{} cases were cut short because the run diverged from the reference for reasons owned by other properties (see labels in the evidence)", gated) } else { "generator starved".to_string() }
         );
         return 2;
     }
